@@ -1003,6 +1003,74 @@ def _all(ctx):
     return cg, rc, allocs, nullable
 
 
+def refcount_functions(prog):
+    """(acquirers, releasers): functions whose body increments / decrements a
+    counter field of their first parameter (reference counting)"""
+    acq, rel = {}, {}
+    for f in prog.fns():
+        if not f.params or not (f.file.startswith('libyara/') or f.file.startswith('C16/') or '/' not in f.file):
+            continue
+        p0 = f.params[0]['name']
+        for n in f.all_nodes():
+            if n['k'] == 'un' and n['op'] in ('++', 'post++', '--', 'post--'):
+                m = cu.strip_casts(f, f.kid(n, 0))
+                if m is not None and m['k'] == 'member' and 'ref' in m['fld']:
+                    b = cu.strip_casts(f, f.kid(m, 0))
+                    if b is not None and b['k'] == 'ref' and b['name'] == p0:
+                        (acq if '+' in n['op'] else rel).setdefault(f.name, m['fld'])
+    # an acquirer does nothing but count
+    acq = {k: v for k, v in acq.items() if k not in rel}
+    return acq, rel
+
+
+def r16_6(ctx, rc=None):
+    """a reference taken is given back on every failing exit"""
+    prog = ctx.prog
+    acq, rel = refcount_functions(prog)
+    ctx.require((acq and rel) or ctx.fixture, 'no reference-counting acquire/release pair found')
+    n = 0
+    for f in prog.fns():
+        if not f.file.startswith('libyara/') and not ctx.fixture:
+            continue
+        sites = [c for c in f.calls() if c.get('callee') in acq]
+        for c in sites:
+            n += 1
+            obj = f.show(cu.strip_casts(f, f.call_args(c)[0]))
+            blk = f.block_of(c)
+            bad = []
+
+            def is_err(x):
+                e = cu.strip_casts(f, f.kid(x, 0)) if x.get('c') else None
+                if e is None:
+                    return False
+                v = cu.const_of(e)
+                if v is not None:
+                    return v != 0
+                return e['k'] == 'ref' and e['name'] in ('__error',)
+
+            def step(x, facts):
+                if x['k'] == 'call' and x.get('callee') in rel and \
+                        f.show(cu.strip_casts(f, f.call_args(x)[0])) == obj:
+                    return facts | {'released'}
+                if x['k'] == 'ret':
+                    if is_err(x) and 'released' not in facts:
+                        bad.append(x)
+                    return None
+                return facts
+            try:
+                paths.explore(f, set(), step, None, start_block=blk[0], start_index=blk[1] + 1,
+                              max_states=2000)
+            except paths.Budget:
+                continue
+            ctx.ob('R16.6', '%s:%s(%s):released-on-failure' % (f.name, c['callee'], obj), not bad,
+                   f.loc(bad[0]) if bad else f.loc(c),
+                   'every failing return after %s(%s) gives the reference back' % (c['callee'], obj)
+                   if not bad else
+                   '%s returns an error here after %s(%s) without %s: the object can never be freed' % (
+                       f.name, c['callee'], obj, '/'.join(sorted(rel))))
+    ctx.count('reference_acquisitions', n)
+
+
 def _fx(which, **kw):
     def runner(ctx):
         cg, rc, allocs, nullable = _all(ctx)
@@ -1014,6 +1082,8 @@ def _fx(which, **kw):
             r16_3(ctx)
         elif which == 4:
             r16_4(ctx, cg, rc, allocs)
+        elif which == 6:
+            r16_6(ctx)
         else:
             r16_5(ctx)
     d = {'src': 'C16/errs.c', 'run': runner}
@@ -1027,6 +1097,8 @@ FIXTURES = {
     'R16.3': _fx(3, expect='realloc_self:b->data=yr_realloc'),
     'R16.4': _fx(4, expect='leaks_on_error:tmp', expect_ok='no_leak:tmp'),
     'R16.5': _fx(5, expect='raw:malloc'),
+    'R16.6': _fx(6, expect='wrap_bad:thing_acquire(t):released-on-failure',
+                 expect_ok='wrap_good:thing_acquire(t):released-on-failure'),
 }
 
 
@@ -1037,6 +1109,8 @@ def run(ctx):
     r16_3(ctx)
     r16_4(ctx, cg, rc, allocs)
     r16_5(ctx)
+    r16_6(ctx)
+    ctx.floor('R16.6', 1)
     ctx.floor('R16.1', 1200)
     ctx.floor('R16.2', 180)
     ctx.floor('R16.3', 4)
